@@ -362,10 +362,15 @@ pub enum Op {
   Relocate {
     original: u8,
     /// name of the new root: 0 unrelated, 1 a textual prefix of the current
-    /// name, 2 the current name plus a suffix
+    /// name, 2 the current name plus a suffix; +3: the copy is opened through
+    /// a storage object that was created for the original root
     #[serde(default)]
     naming: u8,
   },
+  /// mark the end of the handle's queue
+  Savepoint { h: usize },
+  /// discard what the handle queued after its mark
+  RollbackTo { h: usize },
   /// open a reader and keep it
   OpenReader { r: usize },
   /// search again on a kept reader: must still show its snapshot
@@ -387,6 +392,8 @@ impl Op {
       Op::Compact => "compact",
       Op::Reopen => "reopen",
       Op::Relocate { .. } => "relocate",
+      Op::Savepoint { .. } => "savepoint",
+      Op::RollbackTo { .. } => "rollback_to",
       Op::OpenReader { .. } => "open_reader",
       Op::CheckReader { .. } => "check_reader",
       Op::Faulty { .. } => "faulty",
@@ -403,6 +410,8 @@ impl Op {
       Op::Compact => "compact()".into(),
       Op::Reopen => "reopen()".into(),
       Op::Relocate { original, naming } => format!("relocate(original={}, naming={})", original, naming),
+      Op::Savepoint { h } => format!("w{}.savepoint()", h),
+      Op::RollbackTo { h } => format!("w{}.rollback_to(mark)", h),
       Op::OpenReader { r } => format!("r{}=reader()", r),
       Op::CheckReader { r } => format!("r{}.search()", r),
       Op::Faulty { inner, at, kind } => format!("{} with {} at primitive {}", inner.short(), kind, at),
@@ -415,6 +424,8 @@ impl Op {
       | Op::Delete { h, .. }
       | Op::Commit { h }
       | Op::Rollback { h }
+      | Op::Savepoint { h }
+      | Op::RollbackTo { h }
       | Op::DropWriter { h } => Some(*h),
       _ => None,
     }
@@ -434,6 +445,9 @@ pub struct GenParams {
   /// an add is followed by a burst of this many further adds on consecutive
   /// ids with probability 1/4 (0 = never): segments with hundreds of documents
   pub burst: u32,
+  /// one add in six is wrapped in savepoint() ... rollback_to(): only with one
+  /// live handle at a time
+  pub savepoints: bool,
 }
 
 /// Generates a history that is valid in its own context (ops refer to live
@@ -480,7 +494,33 @@ pub fn gen_ops(rng: &mut Rng, cfg: &Cfg, p: &GenParams) -> Vec<Op> {
         if p.big_every > 0 && rng.chance(1, p.big_every as u64) {
           ver += BIG_VERSIONS;
         }
+        let wrap = p.savepoints && !p.overlap && rng.chance(1, 6);
+        if wrap {
+          ops.push(Op::Savepoint { h });
+        }
         ops.push(Op::Add { h, id, ver });
+        if wrap {
+          for _ in 0..rng.usize(3) {
+            if rng.chance(2, 3) {
+              ops.push(Op::Add {
+                h,
+                id: rng.pick(&ids).clone(),
+                ver: next_ver,
+              });
+              next_ver += 1;
+            } else {
+              ops.push(Op::Delete { h, id: rng.pick(&ids).clone() });
+            }
+          }
+          if rng.chance(1, 8) {
+            // a mark that a commit or rollback has overtaken: rollback_to must
+            // then change nothing
+            ops.push(if rng.chance(1, 2) { Op::Commit { h } } else { Op::Rollback { h } });
+            ops.push(Op::RollbackTo { h });
+          } else if rng.chance(3, 4) {
+            ops.push(Op::RollbackTo { h });
+          }
+        }
         if p.burst > 0 && rng.chance(1, 4) {
           let start = rng.usize(ids.len());
           let n = 1 + rng.usize(p.burst as usize);
@@ -514,7 +554,7 @@ pub fn gen_ops(rng: &mut Rng, cfg: &Cfg, p: &GenParams) -> Vec<Op> {
         readers.clear();
         ops.push(Op::Relocate {
           original: rng.below(3) as u8,
-          naming: rng.below(3) as u8,
+          naming: rng.below(6) as u8,
         });
       }
       9 => {
@@ -584,6 +624,7 @@ pub struct Session {
   pub index: Option<Index>,
   pub writers: BTreeMap<usize, IndexWriter>,
   pub readers: BTreeMap<usize, IndexReader>,
+  pub marks: BTreeMap<usize, searchlite_core::api::writer::WriterSavepoint>,
 }
 
 pub fn index_options(cfg: &Cfg, root: &Path, create: bool) -> IndexOptions {
@@ -725,6 +766,7 @@ impl Session {
       index: None,
       writers: BTreeMap::new(),
       readers: BTreeMap::new(),
+      marks: BTreeMap::new(),
     };
     let sch = schema(cfg.profile);
     let opts = index_options(cfg, root, true);
@@ -754,6 +796,7 @@ impl Session {
       index: Some(index),
       writers: BTreeMap::new(),
       readers: BTreeMap::new(),
+      marks: BTreeMap::new(),
     })
   }
 
@@ -775,6 +818,27 @@ impl Session {
       index: Some(index),
       writers: BTreeMap::new(),
       readers: BTreeMap::new(),
+      marks: BTreeMap::new(),
+    })
+  }
+
+  /// Open an existing index at `root` through a caller-supplied storage object
+  /// (`Index::open_with_storage`), e.g. one `FsStorage` that the application
+  /// created once and keeps using for every directory.
+  pub fn open_custom(cfg: &Cfg, root: &Path, fs: Option<SimFs>, storage: Arc<dyn Storage>) -> Result<Session, Outcome> {
+    let opts = index_options(cfg, root, false);
+    let st = storage.clone();
+    let index = guarded(|| Index::open_with_storage(opts, st))?;
+    Ok(Session {
+      cfg: cfg.clone(),
+      root: root.to_path_buf(),
+      fs,
+      mem: None,
+      custom: Some(storage),
+      index: Some(index),
+      writers: BTreeMap::new(),
+      readers: BTreeMap::new(),
+      marks: BTreeMap::new(),
     })
   }
 
@@ -796,6 +860,7 @@ impl Session {
   pub fn reopen(&mut self) -> Outcome {
     self.writers.clear();
     self.readers.clear();
+    self.marks.clear();
     self.index = None;
     match self.open_fresh_index() {
       Ok(i) => {
@@ -819,6 +884,8 @@ impl Session {
       Op::Add { h, .. } | Op::Delete { h, .. } | Op::Commit { h } | Op::Rollback { h } | Op::DropWriter { h } => {
         self.writers.contains_key(h)
       }
+      Op::Savepoint { h } => self.writers.contains_key(h),
+      Op::RollbackTo { h } => self.writers.contains_key(h) && self.marks.contains_key(h),
       Op::Compact | Op::Reopen => self.index.is_some(),
       Op::Relocate { .. } => false,
       Op::OpenReader { r } => self.index.is_some() && !self.readers.contains_key(r),
@@ -873,7 +940,26 @@ impl Session {
           Err(o) => o,
         }
       }
+      Op::Savepoint { h } => {
+        let w = self.writers.get_mut(h).unwrap();
+        match guarded(|| w.savepoint()) {
+          Ok(m) => {
+            self.marks.insert(*h, m);
+            Outcome::Ok
+          }
+          Err(o) => o,
+        }
+      }
+      Op::RollbackTo { h } => {
+        let w = self.writers.get_mut(h).unwrap();
+        let m = self.marks.remove(h).unwrap();
+        match guarded(|| w.rollback_to(&m)) {
+          Ok(()) => Outcome::Ok,
+          Err(o) => o,
+        }
+      }
       Op::DropWriter { h } => {
+        self.marks.remove(h);
         let w = self.writers.remove(h).unwrap();
         match catch_unwind(AssertUnwindSafe(move || drop(w))) {
           Ok(()) => Outcome::Ok,
